@@ -2,7 +2,7 @@
 From Coq Require Import ZArith List Bool String Ascii Arith Lia.
 From KV Require Import Base.Sx Base.Str Gen.Generated Model.SensorTmpl.
 Import ListNotations.
-Open Scope nat_scope.
+Local Open Scope nat_scope.
 
 Definition slash_free (w : list ascii) : Prop := forallb (fun c => negb (is_slash c)) w = true.
 
@@ -189,7 +189,7 @@ Definition resolve_in (module name : string) : option (nat * list (string * stri
 Definition funcs_at (module : string) (r : option (nat * list (string * string))) : string :=
   match r with Some (i, _) => nth i (registry_funcs module) ""%string | None => ""%string end.
 
-Open Scope string_scope.
+Local Open Scope string_scope.
 (* every registered template lies in the modelled subset, in every format module *)
 Lemma registries_parse :
   forallb (fun e => match parse_all (map fst (snd e)) with Some _ => true | None => false end) virtual_registries = true /\
